@@ -23,6 +23,13 @@ pub fn scenarios(thorough: bool) -> Vec<Scenario> {
     t.cfg.adversarial = false;
     t.cfg.pairs = false;
     v.push(t);
+    // mainnet crosses its own activation height 830000 (root re-labelled at 829998)
+    let mut mnet = sc("mainnet-activation-830000", NetID::Mainnet, 0, AlphaCfg::base(), if thorough { 7 } else { 6 });
+    mnet.pre = vec![Action::Jump(829_998)];
+    mnet.cfg.adversarial = false;
+    mnet.cfg.pairs = false;
+    mnet.cfg.faucets = false;
+    v.push(mnet);
     if thorough {
         let mut tp = sc("testnet-activation-pools", NetID::Testnet, 0, pools, 8);
         tp.pre = vec![Action::Jump(498)];
